@@ -55,8 +55,7 @@ Definition e30c_step (s : e30c) (e : yev) : list (e30c * list yout) :=
     (* the request is answered with the application's decision; only an accepted one (COMMACK 0) establishes communication *)
     let a := if accept then 0 else 1 in
     match y_state s with
-    | YWaitCRA => [(if accept then st s YComm else s, [YSendS1F14 a])]
-    | YWaitDelay => [(s, []); (if accept then st s YComm else s, [YSendS1F14 a])]
+    | YWaitCRA | YWaitDelay => [(if accept then st s YComm else s, [YSendS1F14 a])]     (* E30: also while waiting for the delay to expire *)
     | YComm => [(s, [YSendS1F14 a]); (s, [YSendS1F14 a; YHandled])]
     | _ => [(s, [])]
     end
